@@ -323,7 +323,13 @@ def tree_specs(draw, max_elems=12, max_depth=4, max_attrs=3, ns=True, doc_misc=T
 
     root = elem(0)
     pre = post = []
-    if doc_misc and draw(st.integers(0, 3)) == 0:
+    if doc_misc == 'balanced':
+        # none / only before / only after / both: equally frequent
+        m = _misc(pi_targets, with_tail=False)
+        mode = draw(st.integers(0, 3))
+        pre = draw(st.lists(m, min_size=1, max_size=2)) if mode in (1, 3) else []
+        post = draw(st.lists(m, min_size=1, max_size=2)) if mode in (2, 3) else []
+    elif doc_misc and draw(st.integers(0, 3)) == 0:
         m = _misc(pi_targets, with_tail=False)
         pre = draw(st.lists(m, max_size=2))
         post = draw(st.lists(m, max_size=2))
@@ -363,6 +369,134 @@ def to_xml(spec) -> str:
             s += elem(c, sc) if c['k'] == 'e' else misc(c)
         return s + '</%s>' % name(e['ns'], e['n'], sc) + ('[]' if e['tl'] == '' else esc(e['tl'] or ''))
     return ''.join(misc(m) for m in spec['pre']) + elem(spec['root'], {}) + ''.join(misc(m) for m in spec['post'])
+
+
+# --------------------------------------------------------------------------
+# in-place edits of a tree (spec level and object level, kept in step)
+# --------------------------------------------------------------------------
+EDIT_OPS = ('append', 'insert0', 'remove', 'move-last-first', 'set-attr', 'set-text')
+
+
+def edits():
+    return st.fixed_dictionaries({'op': st.sampled_from(EDIT_OPS), 'e': st.integers(0, 40), 'j': st.integers(0, 6),
+                                  'name': st.sampled_from(ELEM_LOCALS), 'attr': st.sampled_from(('x', 'id')),
+                                  'val': st.sampled_from(('z', 'v', '1', ''))})
+
+
+def _spec_elements(spec):
+    out = []
+
+    def walk(e):
+        out.append(e)
+        for c in e['c']:
+            if c['k'] == 'e':
+                walk(c)
+    walk(spec['root'])
+    return out
+
+
+def _new_child(edit):
+    return {'k': 'e', 'ns': None, 'n': edit['name'], 'decl': [], 'a': [[None, edit['attr'], edit['val']]],
+            't': edit['val'] or None, 'c': [], 'tl': None}
+
+
+def apply_edit(spec, edit):
+    """edited deep copy of a normalised spec (what apply_edit_objs does to the objects)"""
+    import copy
+    s = copy.deepcopy(spec)
+    els = _spec_elements(s)
+    e = els[edit['e'] % len(els)]
+    op = edit['op']
+    if op == 'append':
+        e['c'].append(_new_child(edit))
+    elif op == 'insert0':
+        e['c'].insert(0, _new_child(edit))
+    elif op == 'remove':
+        if e['c']:
+            del e['c'][edit['j'] % len(e['c'])]
+    elif op == 'move-last-first':
+        if len(e['c']) >= 2:
+            e['c'].insert(0, e['c'].pop())
+    elif op == 'set-attr':
+        for a in e['a']:
+            if a[0] is None and a[1] == edit['attr']:
+                a[2] = edit['val']
+                break
+        else:
+            e['a'].append([None, edit['attr'], edit['val']])
+    elif op == 'set-text':
+        e['t'] = edit['val'] or None
+    return normalize(s)
+
+
+def apply_edit_objs(built, edit):
+    """the same edit on the xml.etree / lxml objects of a Built, in place"""
+    if built.backend == 'et':
+        mk = ET.Element
+    else:
+        from lxml import etree as L
+        mk = L.Element
+    els = [x for x in built.root.iter() if not callable(x.tag)]
+    e = els[edit['e'] % len(els)]
+    op = edit['op']
+    if op in ('append', 'insert0'):
+        n = mk(edit['name'])
+        n.set(edit['attr'], edit['val'])
+        n.text = edit['val'] or None
+        if op == 'append':
+            e.append(n)
+        else:
+            e.insert(0, n)
+    elif op == 'remove':
+        if len(e):
+            e.remove(e[edit['j'] % len(e)])
+    elif op == 'move-last-first':
+        if len(e) >= 2:
+            c = e[len(e) - 1]
+            e.remove(c)
+            e.insert(0, c)
+    elif op == 'set-attr':
+        e.set(edit['attr'], edit['val'])
+    elif op == 'set-text':
+        e.text = edit['val'] or None
+
+
+def reindex(built):
+    """recompute the address maps of a Built from the objects as they are now (after an edit)"""
+    root = built.root
+    keep = [o for o in built.objs]
+    built.obj_addr, built.text_addr, built.tail_addr, built.by_addr = {}, {}, {}, {}
+    pre = []
+    if built.backend == 'lxml':
+        pre = list(reversed(list(root.itersiblings(preceding=True))))
+        for i, o in enumerate(pre):
+            built.obj_addr[id(o)] = (i,)
+            built.by_addr[(i,)] = o
+        for i, o in enumerate(root.itersiblings()):
+            a = (len(pre) + 1 + i,)
+            built.obj_addr[id(o)] = a
+            built.by_addr[a] = o
+    built.n_pre = len(pre)
+
+    def walk(obj, addr):
+        built.obj_addr[id(obj)] = addr
+        built.by_addr[addr] = obj
+        keep.append(obj)
+        if callable(obj.tag):
+            return
+        idx = 0
+        if obj.text is not None:
+            built.text_addr[id(obj)] = addr + (idx,)
+            idx += 1
+        for c in obj:
+            walk(c, addr + (idx,))
+            idx += 1
+            if c.tail is not None:
+                built.tail_addr[id(c)] = addr + (idx,)
+                idx += 1
+    walk(root, (built.n_pre,))
+    built.objs = keep
+    return built
 
 
 # --------------------------------------------------------------------------
